@@ -113,7 +113,7 @@ func (m *C15) Tx(w *world.World, e *world.TxEvent) {
 	req := map[uint64]int{}
 	switch msg := e.Msg.(type) {
 	case *saotypes.MsgStore:
-		if id, ok := world.AttrU64(e.Marks, "new-order", "order-id"); ok {
+		if id, ok := world.NewOrderID(e); ok {
 			req[id] = int(msg.Proposal.Replica)
 			if o, ok := e.Post.Orders[id]; ok && o.Status == OrderDataReady && len(o.Shards) != int(msg.Proposal.Replica) {
 				w.Violate("C15", "under-replicated-order-accepted:store", fmt.Sprintf("store accepted with %d replicas requested but %d shards assigned", msg.Proposal.Replica, len(o.Shards)), nil)
